@@ -321,6 +321,38 @@ def run(F, R, tier):
     R.check(bool(dis_false) and bool(keyblock) and p is None, "C09.R3", "C09.R3:%s:key-block-when-enabled" % LP, "-",
             "fetch_key / acquire_key are reachable only through a 'state != DISABLE_STATE' edge")
 
+    # the change detector must read every status field a redirect decision reads (otherwise a flip of that field alone is never acted on)
+    from lib import deps
+    det = set()
+    for bi, w, r, t_ in B.calls_named("KeyKeeperSharedState::update_current_secure_channel_state"):
+        for o in B.origins(t_["args"][1]):
+            if o[0] == "call" and o[1].startswith(KS):
+                det.add(o[1])
+    dec = set()
+    def status_calls(o_, depth=3):
+        for o in B.origins(o_):
+            if o[0] == "call" and o[1].startswith(KS):
+                dec.add(o[1])
+            elif o[0] == "call" and depth > 0:       # a comparison / conversion of the getter's result
+                for a in B.blocks[o[2]]["term"]["args"]:
+                    status_calls(a, depth - 1)
+    for bi in red:
+        status_calls(B.blocks[bi]["term"]["args"][0])
+    det_reads = set()
+    for d in det:
+        det_reads |= deps.reads(F, d)
+    fmt_p = lambda s: sorted(".".join(x) for x in s)
+    R.check(len(det) == 1 and len(dec) >= 2, "C09.R3", "C09.R3:%s:detector-and-decisions-identified" % LP, "-",
+            "change detector %s; redirect decisions computed by %s" % (sorted(short(d) for d in det), sorted(short(d) for d in dec)),
+            "cannot identify the change detector (%s) / the decision getters (%s)" % (sorted(det), sorted(dec)))
+    for d in sorted(dec):
+        need = deps.reads(F, d)
+        miss = need - det_reads
+        R.check(bool(need) and not miss, "C09.R3", "C09.R3:%s:detector-covers:%s" % (LP, short(d)), "-",
+                "every status field %s() reads (%s) is also read by the change detector" % (short(d), fmt_p(need)),
+                "the change detector %s does not read %s, which %s() depends on: a change of that field alone never updates the redirect policy"
+                % (sorted(short(x) for x in det), fmt_p(miss), short(d)))
+
     # ------------------------------------------------------------------ R4
     guards = []
     for sb in B.switch_blocks():
